@@ -968,6 +968,7 @@ func engineLRUModel(ctx *Ctx) {
 	caps := []int{-1, 0, 1, 2, 3, 5}
 
 	c12Manager(ctx)
+	c12Big(ctx)
 
 	for i := 0; i < n; i++ {
 		hseed := r.Int63()
